@@ -549,6 +549,7 @@ func (s *childState) runSingleServerModes() error {
 	case "batch":
 		s.runBatchAbort(h)
 		canary.probe("after-batch")
+		s.runDirected(h, canary)
 		return nil
 	}
 	// fuzz
@@ -934,4 +935,58 @@ func dumpGoroutinesOnce(dir string) {
 		fmt.Fprintf(f, "goroutine dump at %s\n", time.Now().Format("15:04:05.000"))
 		pprof.Lookup("goroutine").WriteTo(f, 2)
 	})
+}
+
+// directedScenarios are scripted sequences that random generation cannot reach
+// because they need real time to pass (expiry). Liveness oracle only: the
+// commands are logged before they are sent, the canaries are probed after
+// each scenario, a death is handled by the parent like any other.
+var directedScenarios = []struct {
+	name  string
+	steps []string // "sleep <ms>" or a command with blank-separated arguments
+}{
+	// repaired by 024994a: SETBITV2 on an expired bitmap whose key also has a kv value
+	{"bitmap-expired-then-kv", []string{"setbitv2 one:t0:dbm 8200 1", "bexpire one:t0:dbm 1", "sleep 2300", "set one:t0:dbm 0", "setbitv2 one:t0:dbm 9 1", "bitcount one:t0:dbm", "getbit one:t0:dbm 9"}},
+	{"kv-expired-then-bitmap", []string{"setex one:t0:dkv 1 abc", "sleep 2300", "setbitv2 one:t0:dkv 3 1", "append one:t0:dkv x", "setrange one:t0:dkv 2 yy", "incr one:t0:dkv"}},
+	{"collections-expired-then-write", []string{"hset one:t0:dh f v", "hexpire one:t0:dh 1", "rpush one:t0:dl a b", "lexpire one:t0:dl 1", "sadd one:t0:ds m", "sexpire one:t0:ds 1",
+		"zadd one:t0:dz 1 m", "zexpire one:t0:dz 1", "sleep 2300",
+		"hincrby one:t0:dh f 1", "hdel one:t0:dh f g", "lset one:t0:dl 0 x", "ltrim one:t0:dl 0 0", "lpop one:t0:dl", "srem one:t0:ds m x", "spop one:t0:ds", "zincrby one:t0:dz 1 m", "zremrangebyrank one:t0:dz 0 -1", "zrem one:t0:dz m"}},
+}
+
+func (s *childState) runDirected(h *Host, canary *canaryProbe) {
+	lg, err := newCmdLogger(s.conf.Dir, 90)
+	if err != nil {
+		return
+	}
+	conn, err := Dial(h.Addr(), 30*time.Second)
+	if err != nil {
+		s.inconclusive("directed: " + err.Error())
+		return
+	}
+	defer func() { conn.Close() }()
+	for _, sc := range directedScenarios {
+		for _, st := range sc.steps {
+			f := strings.Fields(st)
+			if f[0] == "sleep" {
+				ms, _ := strconv.Atoi(f[1])
+				time.Sleep(time.Duration(ms) * time.Millisecond)
+				continue
+			}
+			c := GenCmd{Name: f[0], Kind: "directed/" + sc.name, Args: B(f...)}
+			lg.log(c, "")
+			inFlight.begin(90, c)
+			rs, err := conn.DoFramed(c.Args)
+			inFlight.endWith(90, rs, err)
+			s.count("directed_commands", 1)
+			if err != nil {
+				s.inc(s.res.ConnClosed, c.Name)
+				conn.Close()
+				if conn, err = Dial(h.Addr(), 30*time.Second); err != nil {
+					return
+				}
+			}
+		}
+		s.count("directed_scenarios", 1)
+		canary.probe("after directed scenario " + sc.name)
+	}
 }
